@@ -208,13 +208,129 @@ ELQuickSel(c) ==
   \/ (c.pre \in ELLoopPres /\ c.site = "nullmember")
 ELCases == {c \in ELAll : ELValid(c) /\ (~Quick \/ ELQuickSel(c))}
 
+\* ======================= family RP: the n-th throw of ONE evaluation ====================================
+\* The property quantifies over programs, not over single throws: the n-th exception of an evaluation must reach its handler
+\* exactly once, intact, and leave the evaluation able to go on, exactly like the first - whatever was thrown and caught
+\* before it.  A program of this family runs n rounds; round j throws at site sa (even rounds) or sb (odd rounds), the
+\* handler counts the catch, adds the thrown value into a checksum and describes it in the first two rounds; after the
+\* rounds the program logs the counters and then uses built-ins that run script code in the ordinary way (callback,
+\* callback in a callback, accessor inside both) to show that the evaluation is undisturbed.
+\*   sa, sb : throw site of a round (throw statement / runtime error in a plain function; throw or runtime error in script
+\*            code that a built-in is running: forEach / map callback, callback in a callback, getter, setter, comparator)
+\*   h      : where the handler is: inside the throwing function itself (the built-in is not crossed), in the function that
+\*            calls the built-in, in that function's caller, below a second built-in, or all rounds run inside a callback
+\*            of an outer built-in that stays active
+\*   md     : try statement between the site and the handler;   hf : the handler's try statement has a finally block
+\*   n      : number of rounds.  RPMany is larger than every per-evaluation budget of the engine that a throw leaving a
+\*            built-in could use up (vm.py MAX_NATIVE_DEPTH = 100 nested interpreter loops is the largest)
+RPSiteSeq == <<"plain", "rterr", "cbthrow", "mapthrow", "nested", "cbruntime", "getter", "setter", "getterrt", "sortcmp">>
+RPSites == {RPSiteSeq[j] : j \in 1..Len(RPSiteSeq)}
+RPIdx(st) == CHOOSE j \in 1..Len(RPSiteSeq) : RPSiteSeq[j] = st
+RPNativeSites == RPSites \ {"plain", "rterr"}
+RPHandlers == {"inner", "direct", "caller", "native", "under"}
+RPMids == {"none", "finally", "rethrow"}
+RPMany == 130
+RPCounts == {1, 4, RPMany}
+RPI == Var("i")
+\* what the handler adds to the checksum: the number itself, the length of a string, the length of an error's name
+RPVal == Cond(Bin("==", TypeOf(Var("e9")), EStr("number")), Var("e9"),
+              Cond(Bin("==", TypeOf(Var("e9")), EStr("string")), Dot(Var("e9"), "length"), Dot(Dot(Var("e9"), "name"), "length")))
+RPCatch == SBlock(<<SExpr(Upd("++", FALSE, "cnt")), SExpr(CAsg("+", "sum", RPVal)),
+                    SIf(Bin("<", RPI, I(2)), SBlock(<<SLog(EStr("H"))>> \o Describe("e9")), NoS)>>)
+RPGuard(ss, hf) == <<STry(SBlock(ss), "e9", RPCatch, IF hf THEN SBlock(<<SExpr(Upd("++", FALSE, "fin"))>>) ELSE NoS)>>
+\* the body of the round function (parameter i); W wraps the statements of the innermost function, the one that throws
+RPSiteBody(st, W(_)) ==
+  LET cb(ss) == Fun("", <<"v">>, ss) IN
+  CASE st = "plain" -> W(<<SThrow(Plus(RPI, I(1000)))>>)
+    [] st = "rterr" -> W(<<SVar1("u", ENull), SRet(Dot(Var("u"), "x"))>>)
+    [] st = "cbthrow" -> <<SExpr(Call(Dot(Arr(<<RPI, I(7)>>), "forEach"), <<cb(W(<<SThrow(Plus(Var("v"), I(1000)))>>))>>))>>
+    [] st = "mapthrow" -> <<SRet(Dot(Call(Dot(Arr(<<RPI>>), "map"), <<cb(W(<<SThrow(New(Var("RangeError"), <<EStr("m")>>))>>))>>), "length"))>>
+    [] st = "nested" -> <<SExpr(Call(Dot(Arr(<<RPI>>), "forEach"),
+                                     <<Fun("", <<"q">>, <<SExpr(Call(Dot(Arr(<<Var("q"), I(6)>>), "map"), <<cb(W(<<SThrow(Plus(Var("v"), I(3000)))>>))>>))>>)>>))>>
+    [] st = "cbruntime" -> <<SVar1("u", NoE), SExpr(Call(Dot(Arr(<<RPI>>), "forEach"), <<cb(W(<<SExpr(Call(Var("u"), <<>>))>>))>>))>>
+    [] st = "getter" -> <<SVar1("o", ObjK(<<"a", "p">>, <<"init", "get">>, <<I(1), Fun("", <<>>, W(<<SThrow(Plus(RPI, I(2000)))>>))>>)),
+                          SRet(Plus(I(1), Dot(Var("o"), "p")))>>
+    [] st = "setter" -> <<SVar1("o", ObjK(<<"p">>, <<"set">>, <<Fun("", <<"v">>, W(<<SThrow(New(Var("TypeError"), <<EStr("ro")>>))>>))>>)),
+                          SExpr(MAsg(Dot(Var("o"), "p"), RPI))>>
+    [] st = "getterrt" -> <<SVar(<<Decl("u", ENull), Decl("o", ObjK(<<"p">>, <<"get">>, <<Fun("", <<>>, W(<<SRet(Dot(Var("u"), "x"))>>))>>))>>),
+                            SRet(Mem(Var("o"), EStr("p")))>>
+    [] st = "sortcmp" -> <<SExpr(Call(Dot(Arr(<<I(3), RPI>>), "sort"), <<Fun("", <<"a", "b">>, W(<<SThrow(EStr("no order"))>>))>>))>>
+RPMid(md, body) ==
+  CASE md = "none" -> body
+    [] md = "finally" -> <<STry(SBlock(body), "e1", NoS, SBlock(<<SExpr(Upd("++", FALSE, "fin"))>>))>>
+    [] md = "rethrow" -> <<STry(SBlock(body), "e1", SBlock(<<SExpr(Upd("++", FALSE, "rt")), SThrow(Var("e1"))>>), NoS)>>
+RPFun(name, st, c) ==
+  LET inner(ss) == IF c.h = "inner" THEN RPGuard(ss, c.hf) \o <<SRet(I(5))>> ELSE ss
+      site == RPSiteBody(st, inner)
+      body == IF c.h = "direct" THEN RPGuard(site, c.hf) ELSE site
+  IN SFun(name, <<"i">>, RPMid(c.md, body) \o <<SRet(I(1))>>)
+RPProg(c) ==
+  LET two == c.sa # c.sb
+      pick(a) == IF two THEN Call(Var("pick"), <<a>>) ELSE Call(Var("fa"), <<a>>)
+      pickdef == SFun("pick", <<"i">>, <<Set("t", Bin("-", I(1), Var("t"))),
+                                         SIf(Bin("==", Var("t"), I(1)), SBlock(<<SRet(Call(Var("fa"), <<RPI>>))>>), NoS), SRet(Call(Var("fb"), <<RPI>>))>>)
+      use(a) == <<Set("x", Plus(pick(a), I(100))), SExpr(Upd("++", FALSE, "nt"))>>
+      round == CASE c.h \in {"inner", "direct"} -> use(RPI)
+                 [] c.h \in {"caller", "under"} -> RPGuard(use(RPI), c.hf)
+                 [] c.h = "native" -> RPGuard(<<SExpr(Call(Dot(Arr(<<RPI>>), "forEach"), <<Fun("", <<"q">>, use(Var("q")))>>))>>, c.hf)
+      loop == SFor(SVar1("i", I(0)), Bin("<", RPI, I(c.n)), Upd("++", FALSE, "i"), SBlock(round))
+      rounds == IF c.h = "under" THEN SExpr(Call(Dot(Arr(<<I(0)>>), "forEach"), <<Fun("", <<"z">>, <<loop>>)>>)) ELSE loop
+      after == <<SLog(Var("cnt")), SLog(Var("sum")), SLog(Var("fin")), SLog(Var("rt")), SLog(Var("nt")), SLog(Var("x")),
+                 SLog(Plus(I(1), Call(Var("g"), <<I(1), I(2), I(3)>>))),
+                 SLog(Dot(Call(Dot(Arr(<<I(1), I(2), I(3)>>), "map"), <<Fun("", <<"v">>, <<SRet(Plus(Var("v"), I(1)))>>)>>), "length")),
+                 SVar1("w", ObjK(<<"p">>, <<"get">>, <<Fun("", <<>>, <<SRet(I(5))>>)>>)),
+                 SExpr(Call(Dot(Arr(<<I(7)>>), "forEach"),
+                            <<Fun("", <<"a">>, <<SExpr(Call(Dot(Arr(<<I(8)>>), "forEach"),
+                                                            <<Fun("", <<"b">>, <<SLog(Plus(Plus(Var("a"), Var("b")), Dot(Var("w"), "p")))>>)>>))>>)>>)),
+                 SLog(I(50))>>
+  IN Prog(<<SVar(<<Decl("x", I(0)), Decl("cnt", I(0)), Decl("sum", I(0)), Decl("fin", I(0)), Decl("rt", I(0)), Decl("nt", I(0)), Decl("t", I(0))>>),
+            SFun("g", <<"a", "b", "c">>, <<SRet(Plus(Plus(Var("a"), Var("b")), Var("c")))>>),
+            RPFun("fa", c.sa, c)>>
+          \o (IF two THEN <<RPFun("fb", c.sb, c), pickdef>> ELSE <<>>)
+          \o <<rounds>> \o after)
+RPAll == [sa : RPSites, sb : RPSites, h : RPHandlers, md : RPMids, hf : BOOLEAN, n : RPCounts]
+RPValid(c) == /\ RPIdx(c.sa) <= RPIdx(c.sb)                                       \* rounds alternate: the pair is unordered
+              /\ (c.h = "inner" => "sortcmp" \notin {c.sa, c.sb})                 \* a comparator that returns: sorting is not modelled
+RPLong(c) == c.n = RPMany
+\* thorough: the full product for n in {1, 4}; for RPMany every pair of sites x placement, and every single site with
+\* every md / hf.  quick: for n = 4 every pair of sites (handler in the caller), every single site at every placement, with
+\* every md and with hf; for RPMany every single site with the handler in the caller and below a second built-in, two
+\* sites at every placement, two mixed pairs, every md and hf once; n = 1 for every single site.
+RPThoroughSel(c) == ~RPLong(c) \/ (c.md = "none" /\ ~c.hf) \/ c.sa = c.sb
+RPQuickSel(c) ==
+  LET plainly == c.md = "none" /\ ~c.hf  single == c.sa = c.sb IN
+  \/ (c.n = 4 /\ c.h = "caller" /\ plainly)
+  \/ (c.n = 4 /\ single /\ plainly)
+  \/ (c.n = 4 /\ single /\ c.h = "caller" /\ (c.md = "none" \/ ~c.hf))
+  \/ (c.n = 4 /\ single /\ c.h \in {"native", "under"} /\ c.md = "none")
+  \/ (c.n = 1 /\ single /\ c.h = "caller" /\ plainly)
+  \/ (RPLong(c) /\ single /\ c.h \in {"caller", "native"} /\ plainly)
+  \/ (RPLong(c) /\ single /\ c.sa \in {"cbthrow", "getter"} /\ plainly)
+  \/ (RPLong(c) /\ <<c.sa, c.sb>> \in {<<"plain", "cbthrow">>, <<"getter", "sortcmp">>} /\ c.h = "caller" /\ plainly)
+  \/ (RPLong(c) /\ single /\ c.sa = "cbthrow" /\ c.h = "caller" /\ (c.md = "none" \/ ~c.hf))
+RPCases == {c \in RPAll : RPValid(c) /\ (IF Quick THEN RPQuickSel(c) ELSE RPThoroughSel(c))}
+\* law of the sub-grids (checked by TLC before anything runs): every value of every dimension occurs, every site occurs
+\* with RPMany rounds at a placement where the throw leaves a built-in, and so does every placement, md and hf
+RPGridLaw ==
+  /\ \A st \in RPSites : \E c \in RPCases : RPLong(c) /\ c.sa = st /\ c.sb = st /\ c.h \in {"caller", "native"}
+  /\ \A st \in RPSites, s2 \in RPSites : \E c \in RPCases : {c.sa, c.sb} = {st, s2}
+  /\ \A hh \in RPHandlers : \E c \in RPCases : RPLong(c) /\ c.h = hh /\ c.sa \in RPNativeSites
+  /\ \A md \in RPMids : \E c \in RPCases : RPLong(c) /\ c.md = md /\ c.sa \in RPNativeSites
+  /\ \E c \in RPCases : RPLong(c) /\ c.hf /\ c.sa \in RPNativeSites
+  /\ \A nn \in RPCounts, st \in RPSites : \E c \in RPCases : c.n = nn /\ c.sa = st
+ASSUME RPGridLaw
+
 \* ======================= enumeration =================================================================
 C07Prog(cs) == CASE cs.fam = "TS" -> TSProg(cs.c) [] cs.fam = "FO" -> FOProg(cs.c) [] cs.fam = "ER" -> ERProg(cs.c)
-                 [] cs.fam = "EL" -> ELProg(cs.c)
+                 [] cs.fam = "EL" -> ELProg(cs.c) [] cs.fam = "RP" -> RPProg(cs.c)
 C07Cases == (IF Has("TS") THEN {[fam |-> "TS", c |-> c] : c \in TSCases} ELSE {})
             \cup (IF Has("FO") THEN {[fam |-> "FO", c |-> c] : c \in FOCases} ELSE {})
             \cup (IF Has("ER") THEN {[fam |-> "ER", c |-> c] : c \in ERCases} ELSE {})
             \cup (IF Has("EL") THEN {[fam |-> "EL", c |-> c] : c \in ELCases} ELSE {})
+            \cup (IF Has("RP") THEN {[fam |-> "RP", c |-> c] : c \in RPCases} ELSE {})
+\* the programs of RPMany rounds need more steps than MaxSteps (EnumTerminates: none of them runs into the bound)
+C07LongSteps == 40000
+C07LongNext == ~Halted(mst) /\ mst' = Step(mst, C07LongSteps) /\ UNCHANGED <<rec_i, cur>>
 C07EnumInit == /\ rec_i = 0 /\ cur \in C07Cases /\ mst = InitState(C07Prog(cur), {})
 C07EnumEmit == ~Halted(mst) \/ PrintT(ToJson([fam |-> cur.fam, par |-> cur.c, prog |-> C07Prog(cur), steps |-> mst.steps]))
 \* a finally block that has been entered is left before its try statement's continuation frame disappears, and a thrown
